@@ -61,8 +61,8 @@ class Batch(object):
         self.calls = []
         self.meta = []     # (desc, expect_compiled or SKIP, expect_interp or SKIP, src, extra)
 
-    def add(self, fn, args, desc, exp_c, exp_i, src, extra=None):
-        self.calls.append([fn, args])
+    def add(self, fn, args, desc, exp_c, exp_i, src, extra=None, risky=False):
+        self.calls.append([fn, args, True] if risky else [fn, args])
         self.meta.append((desc, exp_c, exp_i, src, extra))
 
 
@@ -105,7 +105,7 @@ def run(tier, seed):
     with concurrent.futures.ThreadPoolExecutor(max_workers=8) as ex:
         ft = {"dm8": ex.submit(tlc_job, "Shadow_dm8"), "dmw": ex.submit(tlc_job, "Shadow_dmw"),
               "cast": ex.submit(tlc_job, "Shadow_cast"), "prog": ex.submit(tlc_job, T["cfg"], {"C38_PROGS": pf}, True)}
-        fb = {"c38tab": ex.submit(build_job, "c38tab", tabsrc)}
+        fb = {"c38tab": ex.submit(build_job, "c38tab", tabsrc), "c38tco": ex.submit(build_job, "c38tco", lp.object_typecheck_module())}
         for m in mods:
             fb[m["name"]] = ex.submit(build_job, m["name"], m["src"])
         tl = {k: f.result() for k, f in ft.items()}
@@ -161,6 +161,7 @@ def run(tier, seed):
     # =====================================================================================
     # tables
     tb = Batch()
+    tco = Batch()
     INTS = lp.TAB_INT
     variants = ["", "l", "d", "c"]
 
@@ -240,7 +241,8 @@ def run(tier, seed):
             k1, k2 = rng.randint(1, 64), rng.randint(1, 64)
             pairs.append((rng.randint(max(lo, -(1 << k1)), min(hi, (1 << k1) - 1)), rng.randint(max(lo, -(1 << k2)), min(hi, (1 << k2) - 1))))
         for x, y in pairs:
-            if y == 0:
+            if y == 0 or (y == -1 and x == lo and lo < 0):       # undefined in C
+                stats["dm_nodemand_undefined_in_c"] += 1
                 continue
             for op in ("cdiv", "cmod"):
                 want = p_trunc(op, x, y)
@@ -275,7 +277,7 @@ def run(tier, seed):
                 continue
             exp = PYX[st] if d["st"] == "ok" else "E:TypeError"
             shx = PYX[st] if sh["k"] == "o" else ("converted", Tt)
-            tb.add(fn, [PYV[st]], desc, exp, exp, "tlc-cell", {"shadow_model": shx})
+            (tco if fn == "pycast_object_tc" else tb).add(fn, [PYV[st]], desc, exp, exp, "tlc-cell", {"shadow_model": shx})
             continue
         sk = lp.kind(st)
         # P: the C conversion computed with Python numbers
@@ -340,7 +342,7 @@ def run(tier, seed):
                     "shadow_dev": "+".join(sorted(flags)), "expected": out["st"], "helper": p["hashelper"]}
             pb[m["name"]].add(entry, [arg_of(p["types"]["a"], a, tlc), arg_of(p["types"]["b"], b, tlc)], desc, exp,
                               exp if via != "wrapper" or p["kind"] != "ccall" else SKIP, src,
-                              {"pid": p["pid"], "a": a, "b": b, "lstyle": p["lstyle"], "pstyle": p["pstyle"]})
+                              {"pid": p["pid"], "a": a, "b": b, "lstyle": p["lstyle"], "pstyle": p["pstyle"]}, risky=True)
             n += 1
         return n
 
@@ -390,6 +392,12 @@ def run(tier, seed):
     jobs = []
     if builds["c38tab"].ok:
         jobs.append(("c38tab", builds["c38tab"], tabsrc, tb))
+    if builds["c38tco"].ok:
+        jobs.append(("c38tco", builds["c38tco"], lp.object_typecheck_module(), tco))
+    else:
+        for c, (desc, exp_c, exp_i, srcname, extra) in zip(tco.calls, tco.meta):
+            rep.disagree(dict(desc, side="compiled"), "compile-crash" if builds["c38tco"].stage == "cython-crash" or "Compiler crash" in (builds["c38tco"].errors or "") else "compile-error",
+                         {"call": c, "want": exp_c, "stage": builds["c38tco"].stage, "errors": (builds["c38tco"].errors or "")[-1500:]})
     for m in mods:
         if builds[m["name"]].ok and pb[m["name"]].calls:
             # a program dropped after the batch was planned has no function in the rebuilt module
